@@ -62,8 +62,9 @@ def check_case(ctx, g, ops, model=None):
     results_seq = []
     pruned_something = False
     for prune, reuse in ops:
-        if reuse is not None and reuse < len(objs) and objs[reuse][0] == prune:
+        if reuse is not None and reuse < len(objs):
             sg = objs[reuse][1]
+            sg.prune_states = prune            # the same object, possibly in the other pruning mode
         else:
             sg = tad.StochasticGame(shared["rewards"], shared["players"], shared["transition_list"],
                                     shared["final_states"], prune_states=prune)
@@ -120,7 +121,8 @@ def cmp_seq(expect, r):
 def op_sequences(rng, quick):
     base = [[(True, None), (True, None)], [(True, None), (False, None)], [(False, None), (True, None)],
             [(True, None), (True, 0)], [(False, None), (False, 0), (True, None)],
-            [(True, None), (False, None), (True, 0), (False, 1)]]
+            [(True, None), (False, None), (True, 0), (False, 1)],
+            [(False, None), (True, 0)], [(True, None), (False, 0), (True, 0)], [(False, None), (True, 0), (False, 0)]]
     return base
 
 
@@ -155,8 +157,16 @@ def run(ctx, model=None):
     N = 150 if ctx.quick() else 3000
     for k in range(N):
         games.append(gen.stopping_game(rng))
+    # unsolvable games (initial state cannot reach / is forced away from the final state)
+    k = 0
+    while k < (10 if ctx.quick() else 100):
+        g = gen.stopping_game(rng, n_inner=rng.randint(2, 5), dead_frac=0.7)
+        if impl.solve(g, True, want_nodes=False)["outcome"] == "ValueError:nosolution":
+            games.insert(rng.randrange(len(games)), g)
+            k += 1
     for i, g in enumerate(games):
-        for ops in (seqs if (not ctx.quick() or i % 3 == 0) else [seqs[i % len(seqs)]]):
+        unsolv = impl.solve(g, True, want_nodes=False)["outcome"] != "ok" if ctx.quick() else False
+        for ops in (seqs if (not ctx.quick() or i % 3 == 0 or unsolv) else [seqs[i % len(seqs)]]):
             check_case(ctx, g, ops, model if ops is seqs[0] or ctx.quick() else None)
         if ctx.time_left() < 0:
             break
